@@ -1,5 +1,6 @@
 (* C04 - The position hash depends only on the position and is stable.  Pinned theorems only. *)
-From Chess Require Import Model.Text Spec.Rules Spec.FenSpec Spec.HashSpec Proofs.Abs Proofs.KeysLayout.
+From Chess Require Import Model.Text Spec.Rules Spec.FenSpec Spec.HashSpec Proofs.Grid Proofs.Inv Proofs.Abs
+  Proofs.KeysLayout Proofs.HashEval.
 From Chess Require Import Gen.Keys.
 
 (* the keys are the little-endian words of the key file at the published byte offsets *)
@@ -17,3 +18,18 @@ Theorem C04_startpos :
 Proof. vm_compute. split; reflexivity. Qed.
 Check C04_startpos : option_map H (parse START_FEN) = Some 0xD9C54592621D7040%N /\ g_hash START = 0xD9C54592621D7040%N.
 Print Assumptions C04_startpos.
+
+(* whenever the caches of a game agree with its board (the invariant every import and every
+   push / pop preserves, see C03), the maintained hash is the published-key hash of the position *)
+Theorem C04_hash_is_H : forall g, CacheInv g -> state_ok (gstate_of g) -> g_hash g = H (abs g).
+Proof. exact hash_is_H. Qed.
+Check C04_hash_is_H : forall g, CacheInv g -> state_ok (gstate_of g) -> g_hash g = H (abs g).
+Print Assumptions C04_hash_is_H.
+
+(* hence two games with the same position have the same hash, whatever their histories *)
+Theorem C04_transposition : forall g1 g2, CacheInv g1 -> CacheInv g2 -> state_ok (gstate_of g1) ->
+  state_ok (gstate_of g2) -> abs g1 = abs g2 -> g_hash g1 = g_hash g2.
+Proof. exact hash_depends_on_position_only. Qed.
+Check C04_transposition : forall g1 g2, CacheInv g1 -> CacheInv g2 -> state_ok (gstate_of g1) ->
+  state_ok (gstate_of g2) -> abs g1 = abs g2 -> g_hash g1 = g_hash g2.
+Print Assumptions C04_transposition.
